@@ -78,6 +78,8 @@ class Ref:
         self.calls = []
         self.rules = {}
         self.body_selection = body_selection
+        self.template_ns_name = "Template"
+        self.full_body = set()     # templates whose body is expanded fully (flagged templates on non-en wikis)
 
     def hit(self, r):
         self.rules[r] = self.rules.get(r, 0) + 1
@@ -112,12 +114,14 @@ class Ref:
             expand_it = full or (name in self.lib and name in self.selection)
             if not expand_it:
                 self.hit("call-left-unexpanded")
-                parts = [a[1].strip() if False else a[1]]
+                parts = [a[1]]
                 for x in a[3]:
                     if x[0] == "pos":
                         parts.append(self.ev(x[1], frame, stack, full))
                     else:
                         parts.append(x[1] + "=" + x[4] + self.ev(x[3], frame, stack, full) + x[5])
+                    if parts[-1].endswith("\n"):
+                        self.hit("CLASS:pos-trailing-newline")
                 return "{{" + "|".join(parts) + "}}"
             ht = {}
             num = 1
@@ -141,12 +145,12 @@ class Ref:
             if t is None:
                 if name not in self.lib:
                     self.hit("missing-template-link")
-                    t = "[[:Template:" + name + "]]"
+                    t = "[[:" + self.template_ns_name + ":" + name + "]]"
                 else:
                     if name in stack:
                         raise Cycle(name)
                     self.hit("template-expanded")
-                    t = self.ev(self.lib[name], ht, stack + (name,), full)
+                    t = self.ev(self.lib[name], ht, stack + (name,), full or name in self.full_body)
             t2 = nl(t)
             if t2 != t:
                 self.hit("newline-prepended")
@@ -158,14 +162,34 @@ class Ref:
             return t
         if not self.pf:
             self.hit("parserfn-left-unexpanded")
+            first = self.ev(a[1], frame, stack, full)
+            n0 = len(self.calls)
             if k == "IF":
-                return "{{#if:" + "|".join(self.ev(x, frame, stack, full) for x in a[1:]) + "}}"
-            if k == "EQ":
-                return "{{#ifeq:" + "|".join(self.ev(x, frame, stack, full) for x in a[1:]) + "}}"
-            if k == "SW":
-                return "{{#switch:" + self.ev(a[1], frame, stack, full) + "".join(
+                out = "{{#if:" + "|".join([first] + [self.ev(x, frame, stack, full) for x in a[2:]]) + "}}"
+            elif k == "EQ":
+                out = "{{#ifeq:" + "|".join([first] + [self.ev(x, frame, stack, full) for x in a[2:]]) + "}}"
+            else:
+                out = "{{#switch:" + first + "".join(
                     "|" + (self.ev(v, frame, stack, full) if c is None else c + "=" + self.ev(v, frame, stack, full))
                     for c, v in a[2]) + "}}"
+            if len(self.calls) != n0:
+                self.hit("CLASS:selected-call-inside-disabled-parserfn")
+            if frame is not None and any(seg.endswith("\n") for seg in out[2:-2].split("|")):
+                self.hit("CLASS:pos-trailing-newline")
+            if first != first.strip():
+                self.hit("CLASS:disabled-parserfn-first-arg-edge-blank")
+            return out
+        if k in ("IF", "EQ", "SW") and not full:
+            n0 = len(self.calls)
+            saved = (self.hook, self.post, dict(self.rules))
+            self.hook = self.post = None
+            try:
+                self.ev(a[1], frame, stack, True)
+            finally:
+                self.hook, self.post, self.rules = saved
+            if any(nm not in self.selection for nm, _ in self.calls[n0:]):
+                self.hit("CLASS:parserfn-first-arg-calls-unselected-template")
+            del self.calls[n0:]
         if k == "IF":
             c = self.ev(a[1], frame, stack, True).strip()
             self.hit("if-true" if c else "if-false")
